@@ -144,8 +144,8 @@ pub fn table_all() -> MandTable {
     let mut t = MandTable::none();
     for i in 0..256usize {
         t.t[i] = match i % 4 {
-            0 => Mand::NonFinal((i % 7) as u8),
-            1 => Mand::Final((i % 5) as u8),
+            0 => Mand::NonFinal(i % 7),
+            1 => Mand::Final(i % 5),
             2 => Mand::NonFinal(0),
             _ => Mand::Final(0),
         };
@@ -182,6 +182,13 @@ pub fn small_states() -> Vec<RxState> {
         build("all-slots-open-free-list-refilled", 2, 64, &[64, 64, 64, 64], &[(5, 10, 40), (0, 8, 40)], None, MandTable::none()),
     ];
     cands.into_iter().flatten().collect()
+}
+
+/// 256 slots with an unfinished train on EVERY fragment id and an empty free list (expensive to rebuild)
+pub fn all_ids_open_state() -> Option<RxState> {
+    let open: Vec<(u8, usize, u16)> = (0..=255u8).map(|i| (i, 4usize, 40u16)).collect();
+    let bufs: Vec<usize> = vec![16; 258];
+    build("256-slots-every-id-open", 256, 16, &bufs, &open, None, MandTable::none())
 }
 
 /// storage >= 64 KiB with a context close to 65535 received bytes (expensive to clone)
